@@ -217,9 +217,33 @@ def overlay_for(pkgs):
             if not os.path.exists(cp) or open(cp).read() != content:
                 open(cp, "w").write(content)
             repl[os.path.join(REPO, pkg, "zz_verif_common_test.go")] = cp
+    if "pkg/workceptor" in pkgs:
+        inst = instrument_workunitbase(gen)
+        if inst:
+            repl[os.path.join(REPO, "pkg/workceptor/workunitbase.go")] = inst
     ov = os.path.join(gen, "overlay_" + hashlib.md5(" ".join(sorted(pkgs)).encode()).hexdigest()[:8] + ".json")
     json.dump({"Replace": repl}, open(ov, "w"), indent=1)
     return ov
+
+
+def instrument_workunitbase(gen):
+    """An instrumented copy of /repo's current workunitbase.go: every status rewrite calls verifStatusHook
+    (harness/overlay/pkg/workceptor/verif_hook.go) inside the lock.  None if the source no longer has the
+    two statements the calls are attached to (the engines that need the log then report a harness error)."""
+    src = open(os.path.join(REPO, "pkg/workceptor/workunitbase.go")).read()
+    if src.count("\tstatusFunc(sfd)\n") != 1:
+        return None
+    src = src.replace("\tstatusFunc(sfd)\n",
+                      "\tverifOld, verifHad := *sfd, size > 0\n\tstatusFunc(sfd)\n\tverifStatusHook(filename, verifHad, &verifOld, sfd)\n")
+    m = re.search(r"func \(sfd \*StatusFileData\) Save\(filename string\) error \{.*?\n\}\n", src, re.S)
+    if not m or m.group(0).count("\terr = sfd.saveToFile(file)\n") != 1:
+        return None
+    body = m.group(0).replace("\terr = sfd.saveToFile(file)\n", "\tverifStatusHook(filename, false, nil, sfd)\n\terr = sfd.saveToFile(file)\n")
+    src = src.replace(m.group(0), body)
+    out = os.path.join(gen, "pkg_workceptor_workunitbase_instrumented.go")
+    if not os.path.exists(out) or open(out).read() != src:
+        open(out, "w").write(src)
+    return out
 
 
 def build_test_binary(pkg, tags="verif"):
